@@ -56,6 +56,73 @@ type Mod struct {
 	Remote bool              `json:"remote,omitempty"` // served by the in-process provider and pinned in buf.lock
 	// LocalToo: a remote module that is ALSO present locally (same name); the local copy carries an extra marker file.
 	LocalToo bool `json:"local_too,omitempty"`
+	// Decoy: "excludes" = the module directory also holds <dir>/zz_excluded/broken.proto, excluded in the module's
+	// configuration; "includes" = all real files live under included sub-directories and <dir>/zz_outside/broken.proto
+	// lies outside them (v2 only). A decoy that is not kept out breaks the build or shows up in a listing.
+	Decoy string `json:"decoy,omitempty"`
+}
+
+const brokenProto = "syntax = \"proto3\";\npackage decoy.v1;\nmessage {\n"
+
+// decoyFiles returns the decoy file (module-relative path -> content) of a module.
+func decoyFiles(m *Mod) map[string]string {
+	switch m.Decoy {
+	case "excludes":
+		return map[string]string{"zz_excluded/broken.proto": brokenProto}
+	case "includes":
+		return map[string]string{"zz_outside/broken.proto": brokenProto}
+	}
+	return nil
+}
+
+func topDirs(m *Mod) ([]string, bool) {
+	set := map[string]bool{}
+	for p := range m.Files {
+		i := strings.Index(p, "/")
+		if i < 0 {
+			return nil, false
+		}
+		set[p[:i]] = true
+	}
+	return protogen.SortedKeys(set), len(set) > 0
+}
+
+// decoyYAML renders the includes/excludes keys of a module entry (v2, indent 4) or the build section (v1).
+func decoyYAML(m *Mod, v2 bool) string {
+	var b strings.Builder
+	switch m.Decoy {
+	case "excludes":
+		if v2 {
+			fmt.Fprintf(&b, "    excludes:\n      - %s/zz_excluded\n", m.Dir)
+		} else {
+			b.WriteString("build:\n  excludes:\n    - zz_excluded\n")
+		}
+	case "includes":
+		tops, _ := topDirs(m)
+		b.WriteString("    includes:\n")
+		for _, d := range tops {
+			fmt.Fprintf(&b, "      - %s/%s\n", m.Dir, d)
+		}
+	}
+	return b.String()
+}
+
+// genDecoys draws decoys for the local modules.
+func genDecoys(t *rapid.T, c *Case) {
+	for i := range c.Mods {
+		m := &c.Mods[i]
+		if m.Remote && !m.LocalToo {
+			continue
+		}
+		switch rapid.IntRange(0, 3).Draw(t, "decoy") {
+		case 0:
+			m.Decoy = "excludes"
+		case 1:
+			if _, ok := topDirs(m); ok && !m.LocalToo && c.Layout != "v1work" {
+				m.Decoy = "includes"
+			}
+		}
+	}
 }
 
 // Case is the replayable input.
@@ -614,6 +681,10 @@ func runWorkspace(ctx context.Context, t interface {
 		for p, txt := range m.Files {
 			files[m.Dir+"/"+p] = []byte(txt)
 		}
+		for p, txt := range decoyFiles(m) {
+			files[m.Dir+"/"+p] = []byte(txt)
+			r.Class("ws:decoy-" + m.Decoy)
+		}
 		if m.LocalToo {
 			files[m.Dir+"/"+markerFile] = []byte("syntax = \"proto3\";\npackage localmarker.v1;\nmessage LocalMarker" + fmt.Sprint(i) + " {}\n")
 		}
@@ -657,6 +728,7 @@ func runWorkspace(ctx context.Context, t interface {
 			if m.Name != "" {
 				fmt.Fprintf(&y, "    name: %s\n", m.Name)
 			}
+			y.WriteString(decoyYAML(m, true))
 		}
 		if len(pins) > 0 {
 			y.WriteString("deps:\n")
@@ -687,6 +759,7 @@ func runWorkspace(ctx context.Context, t interface {
 			if m.Name != "" {
 				fmt.Fprintf(&y, "name: %s\n", m.Name)
 			}
+			y.WriteString(decoyYAML(m, false))
 			// per-module pins: remote modules reachable from this module
 			mp := map[string]bool{}
 			for x := range reach(g, opaque(m)) {
@@ -838,6 +911,7 @@ func TestWorkspace(t *testing.T) {
 		if rapid.Bool().Draw(t, "targetsub") && len(locals) > 0 {
 			c.SubDir = locals[rapid.IntRange(0, len(locals)-1).Draw(t, "sub")]
 		}
+		genDecoys(t, c)
 		runWorkspace(ctx, t, r, c)
 	})
 }
@@ -865,7 +939,16 @@ func runCLI(ctx context.Context, t interface {
 		if m.Name != "" {
 			fmt.Fprintf(&y, "    name: %s\n", m.Name)
 		}
+		y.WriteString(decoyYAML(m, true))
+		onDisk := map[string]string{}
 		for p, txt := range m.Files {
+			onDisk[p] = txt
+		}
+		for p, txt := range decoyFiles(m) {
+			onDisk[p] = txt
+			r.Class("cli:decoy-" + m.Decoy)
+		}
+		for p, txt := range onDisk {
 			full := filepath.Join(tmp, filepath.FromSlash(m.Dir), filepath.FromSlash(p))
 			if err := os.MkdirAll(filepath.Dir(full), 0o755); err != nil {
 				t.Fatalf("harness: %v", err)
@@ -906,6 +989,19 @@ func runCLI(ctx context.Context, t interface {
 		sort.Strings(listed)
 		if strings.Join(built, ";") != strings.Join(listed, ";") {
 			r.Fail(t, "ls-files-vs-build:files", fmt.Sprintf("build puts %v in the image, ls-files --include-imports lists %v", built, listed), c)
+			return
+		}
+		// and both are the closure of the targeted modules' files
+		var roots []string
+		for i := range c.Mods {
+			if c.SubDir == "." || c.SubDir == c.Mods[i].Dir {
+				for p := range c.Mods[i].Files {
+					roots = append(roots, p)
+				}
+			}
+		}
+		if want := protogen.SortedKeys(c.refClosure(roots)); strings.Join(built, ";") != strings.Join(want, ";") {
+			r.Fail(t, "image-file-set", fmt.Sprintf("[cli subdir %s] `buf build` puts %v in the image, closure of the target files is %v", c.SubDir, built, want), c)
 			return
 		}
 	}
@@ -952,6 +1048,7 @@ func TestCLI(t *testing.T) {
 		if rapid.Bool().Draw(t, "targetsub") {
 			c.SubDir = c.Mods[rapid.IntRange(0, len(c.Mods)-1).Draw(t, "sub")].Dir
 		}
+		genDecoys(t, c)
 		runCLI(ctx, t, r, c)
 	})
 }
